@@ -151,6 +151,16 @@ prop("C17", True,
      "difference-bound prover with guard-function summaries and an inductive field invariant + sibling encode/decode cross-check + CFG path-sum rule over go/ssa",
      "DESIGN.md §2 C17")
 
+prop("C01", True,
+     "Static check, over all inputs and schedules, of four causes of process death for the 24 director-less services: (a) call graph (VTA) from each Handle; every goroutine started there installs a recover first or its same-goroutine reach has no explicit "
+     "panic/logger Panic/Fatal/os.Exit, unchecked type assertion, nor index/slice/make the difference-bound prover cannot discharge; no exit site reachable from a handler; the dispatcher's own per-connection recover is present; (b) no function reachable from a handler "
+     "calls itself on every path; (c) every access to a map stored in a shared service object (type closure from the Servicer structs, package-level maps included) that is written from handler-reachable code is under a mutex of the same object; (d) every loop driven by "
+     "decoder reads has an exit that fires when a read fails (error-state test, a callee that provably propagates LastError, or a continuation condition that is false for the 0 a failed read returns, with the tag>0 premise proved). "
+     "Implicit panics on the per-connection goroutine are covered by the checked dispatcher recover; memory growth in general and third-party code are not decided.",
+     "x/crypto/ssh runs auth callbacks on the calling goroutine; library goroutines (ssh.DiscardRequests, io.Copy) do not panic on peer input; VTA call graph precision.",
+     "call-graph reach per goroutine root + kill-site/recover rule + must-recurse + lock-dominance for shared maps + loop-exit classification, with the zone prover for implicit panics",
+     "DESIGN.md §2 C01")
+
 PENDING = {
  "C01": "check not built yet in this revision (design: DESIGN.md §2 C01)",
 }
